@@ -262,6 +262,12 @@ pub fn lookalike_pairs() -> Vec<(&'static str, &'static str)> {
         ("a", "\u{430}"),
         ("x1", "x01"),
         ("0", "00"),
+        ("file", "file\n"),
+        ("file", "file\r\n"),
+        ("file", "file\r"),
+        ("file", "file\t"),
+        ("file", "\u{feff}file"),
+        ("file", "file\u{200b}"),
     ]
 }
 
